@@ -53,3 +53,16 @@ impl DSU {
         self.sz[v]
     }
 }
+
+#[cfg(feature = "verif")]
+impl DSU {
+    /// verification hook: the parent and size arrays
+    pub fn verif_raw(&self) -> (&[usize], &[usize]) {
+        (&self.p, &self.sz)
+    }
+
+    /// verification hook: a DSU with the given parent and size arrays
+    pub fn verif_from_raw(p: Vec<usize>, sz: Vec<usize>) -> Self {
+        Self { p, sz }
+    }
+}
